@@ -29,6 +29,19 @@ pub fn run(thorough: bool, seed: u64, _replay: Option<String>) -> Report {
             pool.push(Case { bytes: b, sett: Sett::default(), tag: format!("legacy-large:{}", enc) });
         }
     }
+    // families: one content (messy head, clean tail: an early checkpoint of the mess detector is high)
+    // requested with different thresholds by different threads
+    let fam_start = pool.len();
+    for f in 0..3 {
+        let head: String = match f { 0 => "#+#+#+#+#+#+#+#+".repeat(1), 1 => "<<==>>||~~--__$$%%^^&&**".to_string(), _ => "\u{1}\u{2}\u{7}#+#+#+#+".to_string() };
+        let body = stretch(&mut rng, TEXTS[1 + f].1, 450);
+        let bytes = format!("{}{}", head, body).into_bytes();
+        for thr in [0.2f32, 0.45, 0.1, 0.3] {
+            let mut s = Sett::default();
+            s.thr = thr;
+            pool.push(Case { bytes: bytes.clone(), sett: s, tag: format!("threshold-family:{}", f) });
+        }
+    }
     let reference: Vec<Outcome> = pool
         .iter()
         .map(|c| {
@@ -51,12 +64,14 @@ pub fn run(thorough: bool, seed: u64, _replay: Option<String>) -> Report {
     for round in 0..rounds {
         let n = thread_counts[round % thread_counts.len()];
         // identical inputs (everyone the same request), overlapping, or all different
-        let mode = round % 3;
+        let mode = round % 4;
         let base = rng.below(pool.len());
+        let fam = fam_start + 4 * rng.below(3);
         let assign: Vec<usize> = (0..n)
             .map(|i| match mode {
                 0 => base,
                 1 => (base + i % 3) % pool.len(),
+                3 => fam + i % 4,
                 _ => rng.below(pool.len()),
             })
             .collect();
@@ -98,7 +113,7 @@ pub fn run(thorough: bool, seed: u64, _replay: Option<String>) -> Report {
             }
         }
         rep.count(&format!("herd:{}-threads", n));
-        rep.count(&format!("herd:mode-{}", ["identical", "overlapping", "random"][mode]));
+        rep.count(&format!("herd:mode-{}", ["identical", "overlapping", "random", "threshold-family"][mode]));
         // no poisoned state left behind: a serial call and a flush (which locks every cache) still work
         let ok = std::panic::catch_unwind(|| {
             vh::flush_caches();
